@@ -245,11 +245,21 @@ SPECS = {
             'env': {'DB_FIELD_ENCRYPTION_KEY': '11aa22bb33cc44dd55ee66ff77008899aabbccddeeff00112233445566778899'},
             'fault_kinds': ['crash'],
             'tiers': {
-                'quick': {'runs': 200, 'budget_s': 60, 'run_timeout_s': 90, 'shrink_budget_s': 40, 'params': {'arm': 'storage'}},
-                'thorough': {'runs': 6000, 'budget_s': 700, 'run_timeout_s': 180, 'shrink_budget_s': 120, 'params': {'arm': 'storage'}},
+                'quick': {'runs': 140, 'budget_s': 40, 'run_timeout_s': 90, 'shrink_budget_s': 40, 'params': {'arm': 'storage'}},
+                'thorough': {'runs': 4000, 'budget_s': 500, 'run_timeout_s': 180, 'shrink_budget_s': 120, 'params': {'arm': 'storage'}},
+            },
+        }, {
+            'name': 'storage_pw',
+            'module': 'scenarios.c16_public',
+            'config_common': {'database_encryption_enabled': 'True'},
+            'env': {'DB_FIELD_ENCRYPTION_PASSWORD': 'correct horse battery staple (verif)'},
+            'fault_kinds': ['crash'],
+            'tiers': {
+                'quick': {'runs': 80, 'budget_s': 30, 'run_timeout_s': 90, 'shrink_budget_s': 40, 'params': {'arm': 'storage'}},
+                'thorough': {'runs': 2000, 'budget_s': 300, 'run_timeout_s': 180, 'shrink_budget_s': 120, 'params': {'arm': 'storage'}},
             },
         }],
-        'rule': ('objects arm: one run = 1-3 subjects (Key, HDKey master / child of every witness type, private HD Wallet) and 5-14 '
+        'rule': ('(arm storage_pw = arm storage with the key given as DB_FIELD_ENCRYPTION_PASSWORD) objects arm: one run = 1-3 subjects (Key, HDKey master / child of every witness type, private HD Wallet) and 5-14 '
                  'rounds of [0-4 priming calls drawn in any order: wif / wif_key / wif_private / as_dict(include_private) / info / '
                  'deepcopy / pickle / subkey / public_master(as_private) / ...] followed by the public views (public(), '
                  'public_master(), wif_public(), Wallet.wif(is_private=False), WalletKey.public(), default as_dict / as_json / repr / '
